@@ -53,6 +53,7 @@ def main():
         present = set()
         committed = set()
         script = []
+        mood = rng.choice(['asc', 'desc', 'rnd', None, None]) if job.get('grow') else None
         for step in range(job['length']):
             if rng.random() < 0.12:
                 # a burst of queries, each on a freshly swept cache (every node a ghost)
@@ -123,6 +124,12 @@ def main():
             k = rng.randint(1, nk)
             if op in ('delitem', 'pop') and present and rng.random() < 0.8:
                 k = rng.choice(sorted(present))
+            if mood and kind == 'any' and len(events) < 0.75 * len(script) and len(present) < nk and rng.random() < 0.7:
+                # growth phase (deep trees: splits of interior nodes and of the root with most of the tree evicted):
+                # add an absent key - the smallest / the largest / any
+                op = 'setitem'
+                absent = sorted(set(range(1, nk + 1)) - present)
+                k = absent[0] if mood == 'desc' else absent[-1] if mood == 'asc' else rng.choice(absent)
             v = rng.randint(1, nv)
             ev.update(op=op, k=k, v=v)
             jar.log = []
